@@ -146,8 +146,13 @@ fn file_bytes(len: usize, seed: u8) -> Bytes {
 fn data_reads(run: &Run) {
     let mut execs = 0u64;
     let mut tree = 0u64;
-    for len in [3usize, 10, 100, 4096] {
-        let data = file_bytes(len, 1);
+    // files whose chunks are all different, and files in which chunks repeat (uniform content: every position of the
+    // data map names the same chunk; zeros around other content: the first and the last do not, the data differs)
+    let mut files: Vec<(usize, Bytes)> = [3usize, 10, 100, 4096].iter().map(|l| (*l, file_bytes(*l, 1))).collect();
+    files.push((30, Bytes::from(vec![0u8; 30])));
+    files.push((3000, Bytes::from(vec![0x41u8; 3000])));
+    files.push((3001, Bytes::from([vec![0u8; 1000], file_bytes(1001, 7).to_vec(), vec![0u8; 1000]].concat())));
+    for (len, data) in files {
         let decoy = file_bytes(len, 2);
         let (dm, chunks) = autonomi::self_encryption::encrypt(data.clone()).expect("encrypt");
         let (ddm, dchunks) = autonomi::self_encryption::encrypt(decoy.clone()).expect("encrypt");
@@ -238,6 +243,19 @@ fn data_reads(run: &Run) {
             execs += 1;
             if !matches!(&res, Some(Ok(b)) if *b == data) {
                 run.violation("honest-read-succeeds", "data-get-honest", short(format!("an honest read of a {len}-byte file failed: {res:?}")), json!({"len": len, "public": public}));
+            }
+            // what the client returns for a content address hashes to that address: encrypting the returned bytes again
+            // must lead to the address that was asked for (judged without reference to the bytes that were uploaded)
+            if let Some(Ok(b)) = &res {
+                let back = autonomi::self_encryption::encrypt(b.clone()).ok().map(|(m, _)| *m.name());
+                if back != Some(*dm.name()) {
+                    run.violation(
+                        "content-hashes-to-address",
+                        "data-get-honest-holders",
+                        format!("{} returned {} bytes which do not encrypt back to the requested address (a {len}-byte file whose chunks {} all served honestly)", if public { "data_get_public" } else { "data_get" }, b.len(), if chunks.iter().map(chunk_key).collect::<HashSet<_>>().len() < chunks.len() { "repeat," } else { "are all different," }),
+                        json!({"len": len, "public": public}),
+                    );
+                }
             }
         }
     }
@@ -596,7 +614,7 @@ pub fn main(tier: Option<&str>) {
     run.rule(
         "chunk_get: 5 chunk contents x 4 other contents x 15 replies (the chunk; another chunk under the requested key / under its own key; bit flipped; truncated; \
          other kinds; header only; garbage; empty; not found; timeout; not-enough-copies / does-not-match / split carrying another chunk). data_get_public and data_get: \
-         files of 3, 10, 100, 4096 bytes, each fetched chunk (data-map chunk and every content chunk) replaced in turn by the same position of another file / a bit flip / \
+         files of 3, 10, 100, 4096 bytes with all-different chunks and of 30, 3000, 3001 bytes in which chunks repeat (zeros, uniform, zeros around other content), each fetched chunk (data-map chunk and every content chunk) replaced in turn by the same position of another file / a bit flip / \
          a sibling chunk / a content chunk in place of the data map, in every completion order of the concurrent fetches. fetch_and_decrypt_vault: 14 versions (authentic \
          counters 1,2,3 and a fork at 2; unsigned / replayed-signature / forged / foreign at counter 9; a forgery tying with counter 2; forged, unsigned and \
          authentic pads under a chunk-kind header; garbage; a chunk record) delivered as one agreed record, inside \
